@@ -38,12 +38,15 @@ edition = "2024"
 [dependencies]
 strum = { version = "0.27.2", features = ["derive"] }
 strum_macros = "0.27.2"
+[features]
+r7 = []
 [lints.rust]
 unexpected_cfgs = { level = "allow" }
 [workspace]
 """
 
-LIB = """#![allow(dead_code, unused_imports, unused_variables, unused_mut, unused_assignments, clippy::all)]
+LIB = """#![feature(allocator_api)]
+#![allow(dead_code, unused_imports, unused_variables, unused_mut, unused_assignments, clippy::all)]
 pub mod ast;
 pub mod statics;
 pub mod parse;
@@ -54,8 +57,13 @@ pub mod shim {
         let mut buf = [0u8; 8];
         let n = a.encode_utf8(&mut buf).len();
         let m = b.encode_utf8(&mut buf[n..]).len();
-        // SAFETY: two UTF-8 encodings back to back
-        unsafe { String::from_utf8_unchecked(buf[..n + m].to_vec()) }
+        let mut v: Vec<u8> = Vec::with_capacity(8);
+        // SAFETY: n + m <= 8 bytes, two UTF-8 encodings back to back
+        unsafe {
+            core::ptr::copy_nonoverlapping(buf.as_ptr(), v.as_mut_ptr(), 8);
+            v.set_len(n + m);
+            String::from_utf8_unchecked(v)
+        }
     }
 }
 """
@@ -68,7 +76,10 @@ pub(crate) use lexer::Span;
 pub(crate) mod lexer;
 """
 
-WRAP = """include!("lexer_real.rs");
+WRAP = """#[cfg(not(feature = "r7"))]
+include!("lexer_real.rs");
+#[cfg(feature = "r7")]
+include!("lexer_r7.rs");
 #[cfg(kani)]
 mod u11 {
     use super::*;
@@ -82,10 +93,11 @@ T_CMT = ['*', '/', '\n', 'a', 'é', ' ']
 T_ESC = ['\\', 'x', 'n', '"', "'", 'a', '7', '+', 'é', '😀']
 T_NUM = ['7', '_', '.', 'a', ' ', 'é']
 T_SPAN = ['*', '7', 'a', ' ', '\n', 'é', '😀']
+T_HEX = ['a', '7', 'F', '+', 'é', 'x', 'g']
 
 # bounds per tier: N = max input length in chars, U = loop unwinding
 BOUNDS = {
-    "quick": dict(N_SCAN=4, U_SCAN=7, N_ESC=4, U_ESC=6, N_NUM=4, U_NUM=6, N_CMT=5, U_CMT=9,
+    "quick": dict(N_SCAN=4, U_SCAN=7, N_ESC=3, U_ESC=5, N_NUM=4, U_NUM=6, N_CMT=5, U_CMT=9,
                   N_TOK=2, U_TOK=5, N_SPAN=4, U_SPAN=6, SCAP=24),
     "thorough": dict(N_SCAN=6, U_SCAN=10, N_ESC=6, U_ESC=10, N_NUM=6, U_NUM=10, N_CMT=7, U_CMT=11,
                      N_TOK=3, U_TOK=14, N_SPAN=3, U_SPAN=14, SCAP=32),
@@ -106,30 +118,41 @@ def lift_slash_arm():
     return text, S.sha(body)
 
 
-def build(dirpath, tier, r7=False):
-    """Write the scratch crate.  r7=False: lexer.rs byte-for-byte.  r7=True: the same text with
-    the single enumerated rewrite R7 (used by the `escapes` obligation only).
-    Returns dict(real_sha, arm_sha, bounds, r7_count)."""
+def build(dirpath, tier):
+    """Write the scratch crate: src/parse/lexer_real.rs = lexer.rs byte-for-byte (default
+    build); src/parse/lexer_r7.rs = the same text with the single enumerated rewrite R7
+    (cargo feature `r7`, used by the escapes obligations only).
+    Returns dict(real_sha, arm_sha, bounds, r7_count, crate_uses, unsafe_count)."""
     b = BOUNDS[tier]
     real_path = os.path.join(S.REPO, LEX)
     with open(real_path, 'rb') as f:
         raw = f.read()
+    text = raw.decode("utf-8")
     real_sha = hashlib.sha256(raw).hexdigest()[:16]
     os.makedirs(os.path.join(dirpath, "src", "parse"), exist_ok=True)
-    r7_count = 0
-    out = raw
-    if r7:
-        pei = S.item(LEX, r'fn process_escapes_into\(')
-        r7_count = pei.count(R7_OLD)
-        if r7_count > 1 or (r7_count == 0 and 'format!' in pei):
-            raise S.SliceError("R7 anchor %r found %d times in process_escapes_into" % (R7_OLD, r7_count))
-        if raw.decode("utf-8").count(R7_OLD) != r7_count:
-            raise S.SliceError("R7 anchor occurs outside process_escapes_into")
-        out = raw.decode("utf-8").replace(R7_OLD, R7_NEW).encode("utf-8")
     with open(os.path.join(dirpath, "src", "parse", "lexer_real.rs"), "wb") as f:
-        f.write(out)  # byte-for-byte unless r7
+        f.write(raw)  # byte-for-byte
+    # R7 copy
+    pei = S.item(LEX, r'fn process_escapes_into\(')
+    r7_count = pei.count(R7_OLD)
+    if r7_count > 1 or (r7_count == 0 and 'format!' in pei):
+        raise S.SliceError("R7 anchor %r found %d times in process_escapes_into" % (R7_OLD, r7_count))
+    if text.count(R7_OLD) != r7_count:
+        raise S.SliceError("R7 anchor occurs outside process_escapes_into")
+    with open(os.path.join(dirpath, "src", "parse", "lexer_r7.rs"), "wb") as f:
+        f.write(text.replace(R7_OLD, R7_NEW).encode("utf-8"))
+    # the logging String::push stub of the escapes harnesses is only sound while the result
+    # string `s` is append-only in process_escapes_into
+    body = S.fn_parts(pei)[1]
+    uses = re.findall(r'\bs\b[^\n]*', re.sub(r'//[^\n]*', '', body))
+    for u in uses:
+        if not (u.startswith('s.push(') or u.startswith('s = "".to_string();') or u.strip() == 's'):
+            raise S.SliceError("process_escapes_into uses its result other than by push: %r" % u)
+    # pointer-validity checks are switched off (cost); that is only justified for safe code
+    unsafe_count = len(re.findall(r'\bunsafe\b', re.sub(r'//[^\n]*', '', text)))
+    if unsafe_count:
+        raise S.SliceError("lexer.rs contains `unsafe` (%d): memory-safety checks must not be disabled" % unsafe_count)
     # the names the file imports from the rest of abra_core (R6): refuse silently drifting imports
-    text = raw.decode("utf-8")
     crate_uses = sorted(set(re.findall(r'^use (crate::[^;]+);', text, re.M)))
     want = ['crate::ast::FileId', 'crate::statics::{Error, StaticsContext}']
     if crate_uses != want:
@@ -153,4 +176,212 @@ def build(dirpath, tier, r7=False):
     w("src/parse/u11_harness.rs", h + arm)
     shutil.copy(os.path.join(HERE, "stubs_ast.rs"), os.path.join(dirpath, "src", "ast.rs"))
     shutil.copy(os.path.join(HERE, "stubs_statics.rs"), os.path.join(dirpath, "src", "statics.rs"))
-    return dict(real_sha=real_sha, arm_sha=arm_sha, bounds=b, crate_uses=crate_uses, r7_count=r7_count)
+    return dict(real_sha=real_sha, arm_sha=arm_sha, bounds=b, crate_uses=crate_uses,
+                r7_count=r7_count, unsafe_count=unsafe_count, pei_sha=S.sha(pei))
+
+
+# ------------------------------------------------------------------ back end
+
+KANI_FLAGS = ["-Z", "function-contracts", "-Z", "stubbing", "-Z", "unstable-options",
+              "--no-memory-safety-checks"]
+
+
+def run_batch(crate_dir, harnesses, feature=None, timeout=600, jobs=6, playback=False):
+    """ONE `cargo kani` invocation for several harnesses (`-j`, per-harness timeout, results
+    written per harness by --output-into-files).  engine.run_kani is not used for the main run
+    because it gives every harness its own target dir, i.e. re-compiles strum/syn per harness
+    (1-2 min each on a loaded machine); the result dict has the same shape as run_kani's."""
+    outdir = os.path.join(crate_dir, "result_output_dir")
+    for h in harnesses:
+        if os.path.exists(os.path.join(outdir, MOD + h)):
+            os.remove(os.path.join(outdir, MOD + h))
+    # (`--jobs` requires the terse format: failed checks are listed, covers only counted)
+    cmd = ["cargo", "kani"] + KANI_FLAGS + ["--exact", "--output-format", "terse", "--output-into-files",
+                                            "--harness-timeout", "%ds" % timeout, "-j", str(max(1, min(jobs, len(harnesses))))]
+    if feature:
+        cmd += ["--features", feature]
+    if playback:
+        cmd += ["-Z", "concrete-playback", "--concrete-playback=print"]
+    for h in harnesses:
+        cmd += ["--harness", MOD + h]
+    env = E.kani_env()
+    env["CARGO_TARGET_DIR"] = os.path.join(crate_dir, "target")
+    t0 = time.time()
+    # whole-invocation guard: compile + ceil(n/jobs) rounds of the per-harness timeout
+    rounds = (len(harnesses) + jobs - 1) // max(1, jobs)
+    p = subprocess.run(["timeout", str(600 + rounds * (timeout + 30))] + cmd, capture_output=True, text=True,
+                       cwd=crate_dir, env=env)
+    wall = time.time() - t0
+    log = p.stdout + "\n" + p.stderr
+    if re.search(r'^error(\[E\d+\])?:', log, re.M) and "Checking harness" not in log and not os.path.isdir(outdir):
+        raise E.Undecided("u11: scratch crate does not compile (lexer.rs drifted away from the stubs/harness?)\n" + log[-3000:])
+    res = {}
+    for h in harnesses:
+        fp = os.path.join(outdir, MOD + h)
+        raw = open(fp, encoding="utf-8", errors="replace").read() if os.path.exists(fp) else ""
+        if playback:
+            raw += "\n" + log
+        failed, cover = [], []
+        for m in re.finditer(r'Failed Checks: ([^\n]*)\n\s*File: "([^"]*)", line (\d+), in ([^\n]+)', raw):
+            desc = m.group(1).strip()
+            if desc.startswith('"') and desc.endswith('"'):
+                desc = desc[1:-1]
+            failed.append("%s @ %s:%s in %s" % (desc, m.group(2), m.group(3), m.group(4).strip()))
+        for m in re.finditer(r'Failed Checks: ([^\n]*)\n(?!\s*File:)', raw):
+            failed.append(m.group(1).strip().strip('"'))
+        cm = re.search(r'\*\* (\d+) of (\d+) cover properties satisfied', raw)
+        if cm:
+            cover.append(("%s of %s cover properties satisfied" % (cm.group(1), cm.group(2)),
+                          "SATISFIED" if cm.group(1) == cm.group(2) else "UNSATISFIABLE"))
+        tm = re.search(r'Verification Time: ([0-9.]+)s', raw)
+        if "VERIFICATION:- SUCCESSFUL" in raw:
+            status = E.DISCHARGED
+        elif "VERIFICATION:- FAILED" in raw and failed:
+            status = E.FAILED
+        else:
+            status = E.UNDECIDED  # timeout, CBMC crash, no output
+        res[h] = dict(status=status, failed=failed, cover=cover, time_s=float(tm.group(1)) if tm else 0.0,
+                      raw=raw[-6000:] if raw else log[-3000:], playback=E.parse_playback(raw) if playback else None)
+    return res, " ".join(cmd), wall
+
+
+SPEC_PREFIX = re.compile(r'^(C\d\d\.|Lexer::new)')
+TOOL_LIMIT = re.compile(r'harness bound|unwinding assertion|is not currently supported|recursion unwinding')
+
+
+def split_result(r):
+    """One harness run -> (spec status, spec failures, totality status, totality failures).
+    spec clauses are the harness assertions whose message starts with the property id;
+    everything else that can fail is Kani's own panic/overflow/bounds/unwrap checks inside the
+    function under test (= C04 totality).  Tool-limit failures make both UNDECIDED."""
+    if r['status'] == E.UNDECIDED:
+        return E.UNDECIDED, [], E.UNDECIDED, []
+    lim = [f for f in r['failed'] if TOOL_LIMIT.search(f)]
+    spec = [f for f in r['failed'] if SPEC_PREFIX.match(f) and f not in lim]
+    tot = [f for f in r['failed'] if f not in spec and f not in lim]
+    vac = [d for d, st in r['cover'] if st != "SATISFIED"]
+    if lim:
+        return E.UNDECIDED, lim, E.UNDECIDED, lim
+    s_st = E.FAILED if spec else E.DISCHARGED
+    t_st = E.FAILED if tot else E.DISCHARGED
+    if vac and s_st == E.DISCHARGED:
+        s_st, spec = E.UNDECIDED, ["vacuity guard: cover not satisfied: %s" % "; ".join(vac)]
+    if not r['cover']:
+        s_st, spec = (E.UNDECIDED, ["vacuity guard: no cover result reported"]) if s_st == E.DISCHARGED else (s_st, spec)
+    return s_st, spec, t_st, tot
+
+
+# harness -> (spec obligation id, props, function, text, bound template, feature, tiers,
+#             totality obligation id or None)
+def table(b):
+    alpha = lambda t: "{" + " ".join(repr(c)[1:-1] for c in t) + "}"
+    return [
+        dict(h="delim_scan", id="C30.lex.delim_scan.post", props=["C30"], fn="scan_for_unescaped_delim", feature=None,
+             total="C04.lex.delim_scan.total",
+             bound="lexer text of <= %d chars over %s, any cursor, any start <= %d, delimiter \" or ', stop_at_newline=false; unwind %d" % (b['N_SCAN'], alpha(T_ALL), b['N_SCAN'] + 1, b['U_SCAN']),
+             text="ensures result == the first position p >= start with chars[index+p] == delim and an even number of consecutive backslashes in [start, p) right before p; None if there is none (spec_scan, from C30)"),
+        dict(h="handle_num_post", id="C30.lex.handle_num.post", props=["C30"], fn="Lexer::handle_num", feature=None,
+             total="C04.lex.handle_num.total",
+             bound="lexer text of <= %d chars over %s, cursor on any digit; unwind %d" % (b['N_NUM'], alpha(T_NUM), b['U_NUM']),
+             text="requires current_char().is_ascii_digit() (the only call site); ensures exactly one token; literal = maximal [0-9_]+ ('.' [0-9_]*)?; token text = its digits in order with `_` removed and the `.` kept; IntLit iff no `.`; span as long as the literal; cursor just after it. (str::parse::<i64/f64> on that text: trusted std, parse.rs)"),
+        dict(h="escapes", id="C30.lex.escapes.post", props=["C30"], fn="process_escapes_into", feature="r7",
+             total="C04.lex.escapes.total",
+             bound="every slice of <= %d chars over %s; unwind %d; text under rewrite R7" % (b['N_ESC'], alpha(T_ESC), b['U_ESC']),
+             text="ensures (a diagnostic is pushed) <=> cs contains a backslash followed by something other than n t r \" ' \\ or xNN with NN two hex digits; if none: result == unescape(cs) where \\n \\t \\r \\\" \\' \\\\ denote LF TAB CR \" ' \\, \\xNN denotes U+00NN, a final lone backslash and every other char denote themselves"),
+        dict(h="escapes_hex", id="C30.lex.escapes_hex.post", props=["C30"], fn="process_escapes_into", feature="r7",
+             total=None,
+             bound="slices `\\ x d2 d3 t` cut to any length <= 5, d2 d3 over %s, t over %s; unwind 7; text under rewrite R7" % (alpha(T_HEX), alpha(T_ESC)),
+             text="same contract as C30.lex.escapes.post, on the \\xNN shape (reaches 5 chars in the quick tier)"),
+        dict(h="line_comment_skip", id="C29.lex.line_comment.skip", props=["C29"], fn="tokenize_file arm '/' (line comment)", feature=None,
+             total="C04.lex.comment_arm.total",
+             bound="`//` followed by <= %d chars over %s; unwind %d" % (b['N_CMT'], alpha(T_CMT), b['U_CMT']),
+             text="ensures cursor == position of the next newline, or end of input; no token pushed (lifted arm: no access to ctx, so no diagnostic either)"),
+        dict(h="block_comment_skip", id="C29.lex.block_comment.skip", props=["C29"], fn="tokenize_file arm '/' (block comment)", feature=None,
+             total=None,
+             bound="`/*` followed by <= %d chars over %s (body, terminator if any, following text); unwind %d" % (b['N_CMT'], alpha(T_CMT), b['U_CMT']),
+             text="ensures cursor == just after the FIRST `*/` at or after index+2; if there is none, cursor >= end of input; no token pushed -- i.e. the comment is skipped exactly like blanks are by the `' '` arm"),
+        dict(h="span_byte_offsets", id="C33.lex.span.byte_offsets", props=["C33"], fn="Lexer::emit / Lexer::emit_with_skipped (via handle_num)", feature=None,
+             total="C04.lex.emit.total",
+             bound="source of <= %d chars over %s, cursor on any `*`, newline or digit; unwind %d" % (b['N_SPAN'], alpha(T_SPAN), b['U_SPAN']),
+             text="requires lexer.chars == source.chars() and index == k (k chars consumed); ensures the pushed token's span == [byte offset of char k, byte offset of the char after the token) in the UTF-8 source, within the source (consumers: Location::range -> codespan labels, FileData::line_number_for_index, both byte-indexed)"),
+        dict(h="keyword_table", id="C04.lex.keyword_table", props=["C04", "C33"], fn="TokenKind::keyword_from_str / TokenKind::nchars", feature=None,
+             total=None, bound="the 33 keyword spellings (complete table); unwind 12",
+             text="ensures for every keyword spelling w: keyword_from_str(w) == Some(k) with k.is_keyword() and k.nchars() == w.len() (real strum-derived FromStr / IntoStaticStr)"),
+        dict(h="tokenize_total", id="C04.lex.tokenize.total", props=["C04"], fn="tokenize_file", feature=None, tiers=("thorough",),
+             total=None,
+             bound="source of <= %d chars over %s; unwind %d; callees handle_num, scan_for_unescaped_delim, process_escapes_into, handle_multiline_string, keyword_from_str, is_poly_ident replaced by their contracts" % (b['N_TOK'], alpha(T_ALL), b['U_TOK']),
+             text="ensures returns (no panic); tokens.len() in 1..=len+1; last token is Eof and no other is; every span has lo <= hi; spans non-decreasing and non-overlapping"),
+    ]
+
+
+def run(tier="quick"):
+    tier = "thorough" if tier == "thorough" else "quick"
+    sc = E.Scratch("u11")
+    try:
+        meta = build(sc.path, tier)
+        b = meta['bounds']
+        rows = [r for r in table(b) if tier in r.get('tiers', ("quick", "thorough"))]
+        tmo = 420 if tier == "quick" else 3000
+        import concurrent.futures as cf
+        plain = [r['h'] for r in rows if not r['feature']]
+        r7 = [r['h'] for r in rows if r['feature'] == "r7"]
+        with cf.ThreadPoolExecutor(max_workers=2) as ex:
+            f1 = ex.submit(run_batch, sc.path, plain, None, tmo, 6)
+            f2 = ex.submit(run_batch, sc.path, r7, "r7", tmo, 2)
+            res1, cmd1, wall1 = f1.result()
+            res2, cmd2, wall2 = f2.result()
+        res = dict(res1)
+        res.update(res2)
+        obs = []
+        tot_acc = {}
+        for r in rows:
+            k = res[r['h']]
+            s_st, s_f, t_st, t_f = split_result(k)
+            detail = "\n".join(s_f[:6]) or (k['raw'][-800:] if s_st == E.UNDECIDED else "")
+            sha = meta['real_sha'] + ("+arm:" + meta['arm_sha'] if "comment" in r['h'] else "")
+            obs.append(E.Obligation(r['id'], r['props'], UNIT, r['fn'], "kani/cbmc", s_st, detail, k['time_s'], LEX, sha,
+                                    r['bound'], "harness %s%s: %s" % (MOD, r['h'], r['text'])))
+            if r['total']:
+                a = tot_acc.setdefault(r['total'], dict(st=[], f=[], t=0.0, fn=r['fn'], bound=[], h=[]))
+                a['st'].append(t_st)
+                a['f'] += t_f
+                a['t'] += k['time_s']
+                a['bound'].append(r['bound'])
+                a['h'].append(r['h'])
+        # the comment arm's totality also covers the block-comment harness
+        if "C04.lex.comment_arm.total" in tot_acc and "block_comment_skip" in res:
+            s_st, s_f, t_st, t_f = split_result(res["block_comment_skip"])
+            a = tot_acc["C04.lex.comment_arm.total"]
+            a['st'].append(t_st)
+            a['f'] += t_f
+            a['h'].append("block_comment_skip")
+        for oid, a in tot_acc.items():
+            st = E.FAILED if E.FAILED in a['st'] else (E.UNDECIDED if E.UNDECIDED in a['st'] else E.DISCHARGED)
+            obs.append(E.Obligation(oid, ["C04"], UNIT, a['fn'], "kani/cbmc", st, "\n".join(a['f'][:6]), 0.0, LEX, meta['real_sha'],
+                                    a['bound'][0],
+                                    "harness(es) %s: no panic, no arithmetic overflow, no out-of-bounds index, no failed unwrap inside the function for any input within the bound (Kani's checks on the real text; same CBMC runs as the .post obligations, time counted there)" % ", ".join(a['h'])))
+        info = dict(
+            assumptions=[
+                "R6 stub: crate::ast::FileId = u32; crate::statics::{Error{UnrecognizedToken(FileId,usize),UnrecognizedEscapeSequence(FileId,Span)}, StaticsContext{file_db: FileDatabase{files: Vec<FileData{source:String}>, get()}, errors: Vec<Error>}} (units/u11_lexer/stubs_*.rs); everything else of StaticsContext dropped",
+                "R7 rewrite (escapes obligations only, %d application): `%s` -> `%s`; assumes format!(\"{d2}{d3}\") yields d2 followed by d3 (std::fmt is out of CBMC's reach: indirect calls through fmt::Argument)" % (meta['r7_count'], R7_OLD, R7_NEW),
+                "std stub: String::push -> stub_string_push (in-place UTF-8 append, no amortised growth, one buffer of SCAP=%d bytes; overflow => UNDECIDED)" % b['SCAP'],
+                "std stub (escapes harnesses): String::push -> stub_push_log (appended chars logged; sound while the result string is append-only in process_escapes_into, checked textually each run)",
+                "std stub: Vec::push -> stub_vec_push (in-place write, capacity fixed at VCAP=8/with_capacity; overflow => UNDECIDED)",
+                "std stub: core::str::count::count_chars -> number of non-continuation bytes (its specification)",
+                "kani::assume: only input-shaping (len <= N, table index < K, cursor < len, cursor on a digit / token start) -- every one is listed in the obligation's bound",
+                "Kani pointer-validity checks disabled (--no-memory-safety-checks): lexer.rs contains no `unsafe` (checked on every run: %d occurrences); panics, overflow, bounds and unwrap checks stay on" % meta['unsafe_count'],
+                "C33 harness: lexer.chars == source.chars() is assumed as the meaning of Lexer::new (`source.chars().collect()`, trusted std) instead of executing String -> Vec<char> in CBMC",
+                "lifted slice: the `'/'` arm of tokenize_file runs as fn arm_slash(lexer: &mut Lexer); the match dispatch that selects it is not part of the obligation (thorough tier: C04.lex.tokenize.total runs it in place)",
+            ],
+            trusted_base=["kani 0.68.0 / CBMC 6.11.0", "tools/slicer.py (item, match_arm)", "strum 0.27.2 derive output (compiled, not stubbed)",
+                          "rustc nightly-2026-08-21 std (String/Vec/char/str::parse)", "units/u11_lexer/harness.rs spec functions (spec_scan, spec_unescape, byte_off)"],
+            checker_cmds=[cmd1.replace(sc.path, "$SCRATCH"), cmd2.replace(sc.path, "$SCRATCH")],
+            notes=dict(bounds=b, lexer_sha256=meta['real_sha'], slash_arm_sha=meta['arm_sha'], r7_applications=meta['r7_count'],
+                       crate_imports=meta['crate_uses'], wall_plain_s=round(wall1, 1), wall_r7_s=round(wall2, 1),
+                       covers={h: k['cover'] for h, k in res.items()},
+                       undecided_by_design=["C30.lex.multiline.indent: handle_multiline_string is out of CBMC's reach here (see unit report); its frame is an assumed contract of C04.lex.tokenize.total",
+                                            "C04.lex.tokenize.total is thorough-only: whole tokenize_file on symbolic text does not finish symbolic execution in 400 s even at 2 chars without callee contracts"]),
+        )
+        return obs, info
+    finally:
+        sc.cleanup()
